@@ -265,11 +265,29 @@ pub fn run(job: &Job) -> RunResult {
         let mut inner = slots[s].inner.take().unwrap();
         let dict = merged_dict(&slots[s].words);
         let n = job.params.get("clauses").and_then(|v| v.as_u64()).unwrap_or(10_500);
+        let distinct_words = job.params.get("distinct_words").and_then(|v| v.as_bool()).unwrap_or(false);
+        if distinct_words {
+            res.count("word_cache_evicted", 1);
+        }
         let mut k = 0u64;
         while k < n {
             let mut text = String::new();
             for _ in 0..250 {
-                text.push_str(&format!("Item {k} is an test of teh cache.\n\n"));
+                if distinct_words {
+                    // a misspelling of its own per clause: SpellCheck's word cache overflows as well
+                    let mut w = String::from("zq");
+                    let mut v = k;
+                    loop {
+                        w.push((b'a' + (v % 26) as u8) as char);
+                        v /= 26;
+                        if v == 0 {
+                            break;
+                        }
+                    }
+                    text.push_str(&format!("Item {k} is an test of teh {w}x cache.\n\n"));
+                } else {
+                    text.push_str(&format!("Item {k} is an test of teh cache.\n\n"));
+                }
                 k += 1;
             }
             let _ = lint_with(&mut inner, &text, false, &dict);
